@@ -19,12 +19,12 @@ CONSTS0 = SN.constants()  # the converters read BEKERN_CATEGORIES: an API call m
 RULE = ('Hypothesis documents (profile "full": non-ASCII lyrics, quotes, commas) rendered with LF or CRLF line ends, with '
         'or without final newline, some with 1-2 malformed cells, written to a fresh temporary directory (removed at '
         'the end of every case).  Oracles: load(path) vs loads(text): equal deep snapshots, equal error lists, equal '
-        'exports; dump(doc, <missing dirs>/file, **options) for 5 drawn option sets (encoding, include, exclude, spine ids, '
+        'exports, also for a second load of the unchanged file after the owner of an earlier loaded document modified it; dump(doc, <missing dirs>/file, **options) for 5 drawn option sets (encoding, include, exclude, spine ids, '
         'spine types, measure ranges incl. single measures, show_measure_numbers; sets that dumps itself rejects are '
         'skipped) written one after the other to the SAME path (every second time over other content of exactly the new size): the file (read back byte-exact, UTF-8) equals dumps(doc, **options) each time; CLI --kern2ekern '
         '(in-process through kernpy.__main__.main with a patched sys.argv) on a single file with implicit and explicit '
         '--output_path and on a directory tree of 2-5 files in two levels with suffixes .krn/.kern/.txt, with and without '
-        '-r: an .ekrn file appears for exactly the matching error-free files and holds exactly dumps(load(f), '
+        '-r (and once more with --output_path: every convertible file must still get an output of its own, beside the source or under that path): an .ekrn file appears for exactly the matching error-free files and holds exactly dumps(load(f), '
         'spine_types=["**kern"], include=BEKERN_CATEGORIES, encoding=eKern); --ekern2kern writes exactly '
         'get_kern_from_ekern(content); kern->ekern->kern->ekern returns the first ekern.  Every run also performs a '
         'few real "python -m kernpy" subprocess invocations.  Non-trivial: CRLF or non-ASCII text present and a '
@@ -188,6 +188,20 @@ def check(case):
             # a well-formed document: the converters below only accept files that import without errors
             raise Bad('import-errors', f'well-formed document imported with errors {[(x.line, x.encoding) for x in e1]}\n{text!r}')
         classes.append('CRLF' if r['nl'] == '\r\n' else 'LF')
+        # ---- every load reads the file: a document handed out earlier belongs to its caller, who may have changed it
+        d1b, _ = kp.load(p)
+        for t in d1b.get_all_tokens():
+            t.hidden = True
+        d1b.measure_start_tree_stages.append(1)
+        d1c, e1c = kp.load(p)
+        if d1c is d1b or d1c is d1:
+            raise Bad('load-returns-shared-document', 'two load() calls for the same file return the same Document object')
+        diff = SN.first_difference(SN.snapshot(d2), SN.snapshot(d1c))
+        if diff:
+            raise Bad('load-differs-after-earlier-load', f'load(file) after an earlier load of the same unchanged file whose document was modified by its owner '
+                                                         f'(tokens hidden) differs from loads(text): {diff}\n{text!r}')
+        if [(x.line, x.encoding) for x in e1c] != [(x.line, x.encoding) for x in e2]:
+            raise Bad('load-errors-differ', 'error lists of the second load differ')
         # ---- dump vs dumps, several option sets to the SAME path
         q = os.path.join(td, 'out', 'x', 'y', 'result.krn')
         for oi, o in enumerate(case['opts']):
@@ -285,6 +299,30 @@ def check(case):
                     raise Bad('cli-missing-output', f'no output for {os.path.relpath(fp, root)} (recursive={case["recursive"]}); stderr={se[-300:]}')
                 if read(out) != api:
                     raise Bad('cli-directory-differs', f'{os.path.relpath(fp, root)}: CLI wrote {read(out)!r}; API gives {api!r}')
+        # a directory together with --output_path: where the outputs go is not pinned down (next to the sources, as kernpy
+        # does, or collected under that path), but every selected file still gets an output of its own with the API's text
+        root2, coll = os.path.join(td, 'tree2'), os.path.join(td, 'collected')
+        for fp, f in files:
+            write(os.path.join(root2, f['sub'], f['stem'] + f['suffix']), text_of(f['r']))
+        rc, so, se = run_cli(*(['--kern2ekern', '--input_path', root2, '--output_path', coll] + (['-r'] if case['recursive'] else [])))
+        evals += 1
+        if rc != 0:
+            raise Bad('cli-directory-output-path-failed', f'directory input with --output_path: rc={rc} stderr={se[-400:]}')
+        found_under = {}
+        if os.path.isdir(coll):
+            for dp, _, fns in os.walk(coll):
+                for fn in fns:
+                    found_under.setdefault(fn, []).append(read(os.path.join(dp, fn)))
+        want = [(fp, f, expected_ekern(fp)) for fp, f in files
+                if f['suffix'] in ('.krn', '.kern') and (case['recursive'] or f['sub'] == '')]
+        want = [(fp, f, api) for fp, f, api in want if api is not None]
+        for fp, f, api in want:
+            beside = os.path.join(root2, f['sub'], f['stem'] + '.ekrn')
+            ok = (os.path.exists(beside) and read(beside) == api) or api in found_under.get(f['stem'] + '.ekrn', []) \
+                or (len(want) == 1 and os.path.isfile(coll) and read(coll) == api)
+            if not ok:
+                raise Bad('cli-directory-output-path-loses-files', f'directory input with --output_path (recursive={case["recursive"]}, {len(want)} convertible files): '
+                          f'no output with the API\'s text for {os.path.join(f["sub"], f["stem"] + f["suffix"])}, neither beside the source nor under the given path; stderr={se[-300:]}')
         # ekern2kern over the same tree
         rc, so, se = run_cli(*(['--ekern2kern', '--input_path', root] + (['-r'] if case['recursive'] else [])))
         if rc != 0:
